@@ -145,6 +145,9 @@ def excess_line(sx, cols, excess, cw, start, stop):
     return sx.line('excess', [list(c) for c in cols], excess, list(cw), start, stop)
 
 
+MUTATED = 'modified-the-cached-preferred-widths'
+
+
 class _Ctx:
     def __init__(self):
         self.tables = {}
@@ -167,11 +170,16 @@ def call_auto(inp):
     result = (inp['tmin'], inp['tmax'], [c[0] for c in cols], [c[1] for c in cols],
               [c[2] for c in cols], [c[3] for c in cols], inp['spacing'], grid_of(cols))
     context.tables[table] = {False: result, True: result}
+    before = [list(x) for x in result[2:6]]
     try:
         table_mod.auto_table_layout(context, wrapper, (inp['cb'], 'auto'))
     except Exception as exc:  # noqa: BLE001
         return f'err:{type(exc).__name__}'
-    return fixed_out(table.width, table.column_widths)
+    out = fixed_out(table.width, list(table.column_widths))
+    if [list(x) for x in result[2:6]] != before:
+        # the tuple is the per-document cache of table_and_columns_preferred_widths
+        out += ' ' + MUTATED
+    return out
 
 
 def auto_line(sx, inp, cmd='auto'):
@@ -423,6 +431,7 @@ class Recorder:
         self.fixed, self.auto, self.excess, self.collapse, self.wrapper = [], [], [], [], []
         self.layouts = []        # calls of table_layout
         self.preferred = []      # first computation of table_and_columns_preferred_widths per table
+        self.cell_widths = []    # table_cell_min_max_content_width of every cell, at that moment
         self.current = None      # (html, info) of the document being rendered
 
     @contextlib.contextmanager
@@ -463,21 +472,46 @@ class Recorder:
 
         block_mod = importlib.import_module('weasyprint.layout.block')
         orig_layout = block_mod.table_layout
+        orig_container = block_mod.block_container_layout
+        cell_calls = []          # stack: one list per running table_layout
+
+        def container_layout(*args, **kwargs):
+            # table_layout imports block_container_layout from the module at every call: the cells'
+            # skip stacks and resume points are observed here, the original runs unchanged
+            box = args[1] if len(args) > 1 else kwargs['box']
+            if not (cell_calls and isinstance(box, boxes.TableCellBox)):
+                return orig_container(*args, **kwargs)
+            import copy
+            skip = copy.deepcopy(args[3] if len(args) > 3 else kwargs['skip_stack'])
+            n_children = len(box.children)
+            result = orig_container(*args, **kwargs)
+            cell_calls[-1].append({'cell': box, 'skip': skip, 'n': n_children, 'placed': result[0] is not None,
+                                   'resume': copy.deepcopy(result[1])})
+            return result
 
         def table_layout(context, table, bottom_space, skip_stack, containing_block, page_is_empty,
                          absolute_boxes, fixed_boxes):
             import copy
             skip = copy.deepcopy(skip_stack)
-            result = orig_layout(context, table, bottom_space, skip_stack, containing_block, page_is_empty,
-                                 absolute_boxes, fixed_boxes)
+            cell_calls.append([])
+            border_top_before = getattr(table, 'border_top_width', None)
+            try:
+                result = orig_layout(context, table, bottom_space, skip_stack, containing_block, page_is_empty,
+                                     absolute_boxes, fixed_boxes)
+            finally:
+                calls = cell_calls.pop()
             rec.layouts.append({
                 'doc': rec.current, 'table': table, 'skip': skip, 'bs': bottom_space,
                 'empty': bool(page_is_empty), 'page_bottom': context.page_bottom,
                 # the original box keeps the decoration removal / collapsed top border of this call
-                'content_y': table.content_box_y(), 'result': result[:3]})
+                'content_y': table.content_box_y(), 'result': result[:3], 'cell_calls': calls,
+                'border_top': (border_top_before, getattr(table, 'border_top_width', None)),
+                'skip_flags': (getattr(table, 'skip_cell_border_top', None),
+                               getattr(table, 'skip_cell_border_bottom', None))})
             return result
 
         block_mod.table_layout = table_layout
+        block_mod.block_container_layout = container_layout
         orig_pref = preferred.table_and_columns_preferred_widths
 
         def pref(context, box, outer=True):
@@ -493,6 +527,14 @@ class Recorder:
                     record = {'doc': rec.current, 'args': args}
             except NotFinite:
                 record = None
+            try:
+                for group in table.children:
+                    for row in group.children:
+                        for cell in row.children:
+                            line, out, kinds = doc_cell_width_case(context, cell)
+                            rec.cell_widths.append({'doc': rec.current, 'line': line, 'out': out, 'kinds': kinds})
+            except NotFinite:
+                pass
             result = orig_pref(context, box, outer)
             if record is not None and context.tables.get(table):
                 try:
@@ -539,8 +581,10 @@ class Recorder:
                 'cb': num(containing_block[0]),
                 'cols': [(num(a), num(b), num(p), bool(c), bool(g))
                          for a, b, p, c, g in zip(mins, maxs, pcts, cons, grid)]}
+            cached = [list(x) for x in (mins, maxs, pcts, cons)]
             orig_auto(context, box, containing_block)
-            rec.auto.append({'doc': rec.current, 'inp': inp, 'out': (num(table.width), rats(table.column_widths))})
+            rec.auto.append({'doc': rec.current, 'inp': inp, 'out': (num(table.width), rats(table.column_widths)),
+                             'mutated': [list(x) for x in (mins, maxs, pcts, cons)] != cached})
 
         def excess(context, grid, excess_width, column_widths, constrainedness,
                    column_intrinsic_percentages, column_max_content_widths,
@@ -572,6 +616,7 @@ class Recorder:
             preferred.table_and_columns_preferred_widths = orig_pref
             table_mod.table_and_columns_preferred_widths = orig_pref
             block_mod.table_layout = orig_layout
+            block_mod.block_container_layout = orig_container
             for mod, orig in patched.items():
                 mod.table_wrapper_width = orig
             table_mod.fixed_table_layout, table_mod.auto_table_layout = orig_fixed, orig_auto
@@ -586,15 +631,24 @@ def style_dim(value):
 
 # ---------------------------------------------------------------- tolerant canonicalisation (documents)
 
-def snap(impl_out, model_out, rel=F(1, 10**9)):
+def snap(impl_out, model_out, rel=F(1, 10**9), whole=False):
     """Documents compute in binary floats, the model in rationals.  When every numeric token of the
     implementation's output is within `rel` (relative, floor 1) of the model's and all other tokens
-    are identical, return (model_out, n_rounded); else (impl_out, 0)."""
+    are identical, return (model_out, n_rounded); else (impl_out, 0).  `whole`: relative to the
+    largest magnitude of the whole output (sums and differences of all the values: the absolute float
+    error is that of the largest operand)."""
     from vlib import sx
     a, b = sx.tokenize(impl_out), sx.tokenize(model_out)
     if len(a) != len(b):
         return impl_out, 0
     rounded = 0
+    scale = F(1)
+    if whole:
+        for y in b:
+            try:
+                scale = max(scale, abs(Fraction(y)))
+            except (ValueError, ZeroDivisionError):
+                pass
     for x, y in zip(a, b):
         if x == y:
             continue
@@ -602,7 +656,7 @@ def snap(impl_out, model_out, rel=F(1, 10**9)):
             fx, fy = Fraction(x), Fraction(y)
         except (ValueError, ZeroDivisionError):
             return impl_out, 0
-        if abs(fx - fy) > rel * max(1, abs(fx), abs(fy)):
+        if abs(fx - fy) > rel * max(scale, abs(fx), abs(fy)):
             return impl_out, 0
         rounded += 1
     return model_out, rounded
@@ -686,7 +740,17 @@ def g_doc(rng, flavour):
     def text():
         if paged or rng.random() < 0.5:
             return rng.choice(WORDS)
-        return ' '.join(rng.choice(WORDS) for _ in range(rng.randrange(2, 4)))
+        extra = ''
+        r = rng.random()
+        if r < 0.12:
+            # a float is unbreakable content of the cell; an absolutely positioned box is not
+            extra = (f'<div style="float:{rng.choice(["left", "right"])};width:{css_len(_q(rng, 5, 70))};'
+                     f'height:3px;margin:0 {css_len(_q(rng, 0, 3, (1,)))}"></div>')
+        elif r < 0.17:
+            extra = f'<div style="position:absolute;width:{css_len(_q(rng, 50, 150))};height:3px"></div>'
+        elif r < 0.22:
+            extra = f'<div style="width:{css_len(_q(rng, 5, 70))};height:3px"></div>'
+        return extra + ' '.join(rng.choice(WORDS) for _ in range(rng.randrange(2, 4)))
 
     emitted_labels = []
 
@@ -937,11 +1001,20 @@ def pagination_case(document, info):
         wire.append([has_h, has_f, rows, y0, hh or F(0), fh or F(0), first_h, limit, end_y, page_bottom])
     expected = sorted(info['labels'])      # rows entirely covered by row-spanning cells have no cell
     labels_once = sorted(all_labels) == expected
+    if info.get('body_words') is not None:
+        # rows cut by the page: the first cell's text is spread over two fragments; instead every word
+        # of every body cell must be shown exactly once over all the fragments
+        labels_once = sorted(body_words(document)) == info['body_words']
+        notes.add('words-conserved' if labels_once else 'words-lost-or-duplicated')
     if len(frags[0][2].column_widths) < info['n_cols']:
         # fixed layout: the grid is as wide as the first row / the <col>s; cells of later rows beyond
         # it are not rendered (CSS 2.1 17.5.2.1 allows it): their labels are legitimately absent
         notes.add('grid-clipped')
         labels_once = len(set(all_labels)) == len(all_labels) and set(all_labels) <= set(expected)
+        if info.get('body_words') is not None:
+            import collections
+            shown, source = collections.Counter(body_words(document)), collections.Counter(info['body_words'])
+            labels_once = all(shown[w] <= source[w] for w in shown)
     return [info['n_body'], decl_h, decl_f, labels_once, wire], notes, len(frags)
 
 
@@ -1110,8 +1183,7 @@ def geometry_violation(table, layout_widths=None):
                             f'last column at {positions[last] + widths[last]}')
                 # auto layout: a column is at least as wide as its widest unbreakable content (the test
                 # font is fixed-pitch: a word of k letters is k * font-size wide)
-                if (not used_fixed and cell.style['font_family'] == ('weasyprint',) and
-                        not rtl_reversed(table, layout_widths)):
+                if not used_fixed and cell.style['font_family'] == ('weasyprint',):
                     boxes = _mods()[1]
                     words = [w for b in cell.descendants() if isinstance(b, boxes.TextBox)
                              for w in b.text.split()]
@@ -1120,6 +1192,11 @@ def geometry_violation(table, layout_widths=None):
                         if cell.width < need - tol:
                             return (f'auto layout: cell {cell_texts(cell)!r} has content width {cell.width}, its '
                                     f'widest word needs {need}')
+                if not used_fixed:
+                    for need in unbreakable_needs(cell):
+                        if cell.width < need - tol:
+                            return (f'auto layout: cell {cell_texts(cell)!r} has content width {cell.width}, a '
+                                    f'float / fixed-width block inside it needs {need}')
     return None
 
 
@@ -1142,6 +1219,16 @@ def rows_violation(table, continued_row=False):
         for row in group.children:
             if skip and not (group.is_header or group.is_footer):
                 skip = False
+                header = table.children[0] if table.children[0].is_header else None
+                if collapse and header is not None and header.children and header.children[-1].children:
+                    # the rest of a cell cut by the page break starts below the bottom border of the
+                    # repeated header (the lower half of that line lies over the row)
+                    below = row.position_y + max(c.border_bottom_width for c in header.children[-1].children)
+                    for cell in row.children:
+                        if cell.content_box_y() < below - tol:
+                            return (f'continued cell {cell_texts(cell)!r}: its content starts at '
+                                    f'y={cell.content_box_y()}, inside the bottom border of the repeated header '
+                                    f'(which reaches y={below})')
                 continue
             for cell in row.children:
                 if abs(cell.position_y - row.position_y) > tol:
@@ -1172,15 +1259,19 @@ def pagination_violation(args):
     return None
 
 
-def rtl_reversed(table, layout_widths):
-    """Known finding rtl-columns-reversed-on-relayout: `table_layout` reverses `table.column_widths` in
-    place at its end (rtl); when the same page lays the table out a second time (its bottom border
-    overflowed), the second pass uses the reversed list.  True when this fragment was laid out with
-    the widths computed by the width algorithm in reversed order."""
-    if layout_widths is None or table.style['direction'] != 'rtl':
-        return False
-    final = rats(table.column_widths)       # reversed once more by the pass that produced the fragment
-    return final == list(layout_widths) and final != list(layout_widths)[::-1]
+def final_columns_violation(table, layout_widths, tol=1e-6):
+    """Every fragment is laid out with the column widths the width algorithm computed, and shows them
+    in visual order (rtl: reversed).  (Former finding rtl-columns-reversed-on-relayout, repaired by
+    d13f52d: `table_layout` reversed the shared list in place, a second layout of the table on the same
+    page used the reversed widths.)"""
+    if layout_widths is None:
+        return None
+    want = list(layout_widths) if table.style['direction'] == 'ltr' else list(layout_widths)[::-1]
+    got = list(table.column_widths)
+    if len(got) != len(want) or any(abs(a - b) > tol * max(1, abs(b)) for a, b in zip(got, want)):
+        return (f'{table.style["direction"]} table fragment laid out with the column widths {got} (visual '
+                f'order), the width algorithm computed {list(layout_widths)} (logical order)')
+    return None
 
 
 def clause_cases(table, all_tables=None, layout_widths=None):
@@ -1198,7 +1289,7 @@ def clause_cases(table, all_tables=None, layout_widths=None):
         out.append((sx.line('tablewidth', used_fixed, collapse, num(table.style['border_spacing'][0]), widths,
                             len([i for i in range(len(widths)) if i in originating])),
                     sx.atom(num(table.width)), 'fixed-sum' if used_fixed else 'auto-sum'))
-    if not used_fixed and not rtl_reversed(table, layout_widths):
+    if not used_fixed:
         for group in table.children:
             for row in group.children:
                 for cell in row.children:
@@ -1209,6 +1300,9 @@ def clause_cases(table, all_tables=None, layout_widths=None):
                     if lens:
                         out.append((sx.line('wordfits', num(cell.style['font_size']), lens, num(cell.width)),
                                     'ok', 'min-content'))
+                    needs = unbreakable_needs(cell)
+                    if needs:
+                        out.append((sx.line('contentfits', needs, num(cell.width)), 'ok', 'min-content-box'))
     return out
 
 
@@ -1312,7 +1406,10 @@ def layout_call_cases(records):
     table = records[0]['table']
     if any(r['table'] is not table for r in records):
         return [], 'several-tables'
-    # rows must be atomic: no call may resume inside a cell
+    # rows must be atomic: a row-spanning cell makes the height of the row it starts in say nothing
+    # about whether its content fits (the row it ends in carries it); no call may resume inside a cell
+    if any(c.rowspan > 1 for g in table.children for row in g.children for c in row.children):
+        return [], 'rowspan'
     for r in records:
         if _skip_depth(r['skip']) > 2 or _skip_depth(r['result'][1]) > 2:
             return [], 'split-row'
@@ -1390,6 +1487,615 @@ def layout_call_cases(records):
                      'forced' if next_page['break'] != 'any' else 'unforced']
         cases.append((line, out, tags))
     return cases, None
+
+
+# ---------------------------------------------------------------- split collapsed tables (table_layout bookkeeping)
+
+def split_border_cases(records):
+    """Protocol lines of `splitborders` for the recorded `table_layout` calls of collapsed tables:
+    skip stack, rows per group, header / footer, the widths of the horizontal border grid in; the
+    fragment's `skipped_rows`, whether cells are split, the table's `border_top_width` after the call
+    and the two `skip_cell_border_*` flags out.  -> [(line, implementation output, tags)]"""
+    from vlib import sx
+    cases = []
+    for r in records:
+        table = r['table']
+        if table.style['border_collapse'] != 'collapse' or r['result'][0] is None:
+            continue
+        groups = list(table.children)
+        has_header = bool(groups) and groups[0].is_header
+        has_footer = bool(groups) and groups[-1].is_footer
+        skip = r['skip']
+        if skip:
+            (g, inner), = skip.items()
+            if inner:
+                (ri, cells), = inner.items()
+                skip_wire = [g, ri, bool(cells)]
+            else:
+                skip_wire = [g, 'none']
+        else:
+            skip_wire = 'none'
+        before, after = r['border_top']
+        if before is None or after is None:
+            continue
+        clone = table.style['box_decoration_break'] == 'clone'
+        if skip is not None and not has_header and not clone:
+            before = 0          # the first remove_decoration(start=True) of the call
+        resume_at = r['result'][1]
+        broken_in_row = _skip_depth(resume_at) > 2
+        _, horizontal = table.collapsed_border_grid
+        fragment = r['result'][0]
+        line = sx.line('splitborders', skip_wire, [len(g.children) for g in groups], has_header, has_footer,
+                       broken_in_row, [[num(e[1][1]) for e in row] for row in horizontal], num(before))
+        top, bottom = r['skip_flags']
+        out = (f'{fragment.skipped_rows} {str(bool(skip_wire != "none" and len(skip_wire) == 3 and skip_wire[2])).lower()} '
+               f'{sx.atom(num(after))} {str(bool(top)).lower()} {str(bool(bottom)).lower()}')
+        tags = ['first' if not skip else 'continued', 'header' if has_header else 'no-header',
+                'footer' if has_footer else 'no-footer'] + (['broken-in-row'] if broken_in_row else [])
+        cases.append((line, out, tags))
+    return cases
+
+
+def split_cell_y_cases(table, continued, header_declared=False):
+    """`splitcelly` lines for the cells of the first body row of a fragment: where the cell box starts
+    (below the bottom border of a repeated header when the row continues a row cut by the page break
+    in the collapsing model, else at the row's top).  -> [(line, implementation output, tags)]"""
+    from vlib import sx
+    collapse = table.style['border_collapse'] == 'collapse'
+    header = table.children[0] if table.children and table.children[0].is_header else None
+    if header is None and header_declared:
+        # the declared header was dropped (too tall): the code still shifts the continued cells by the
+        # borders of that header, which this fragment does not show (same root as the known finding
+        # collapsed-dropped-header-shifts-borders: `has_header` means declared, not rendered)
+        return []
+    bottoms = []
+    if header is not None and header.children and header.children[-1].children:
+        bottoms = rats(c.border_bottom_width for c in header.children[-1].children)
+    for g in table.children:
+        if g.is_header or g.is_footer:
+            continue
+        if not g.children:
+            return []
+        row = g.children[0]
+        return [(sx.line('splitcelly', num(row.position_y), collapse, header is not None, bool(continued), bottoms),
+                 sx.atom(num(c.position_y)),
+                 ['continued' if continued else 'fresh', 'header' if header is not None else 'no-header',
+                  'collapse' if collapse else 'separate']) for c in row.children]
+    return []
+
+
+# ---------------------------------------------------------------- rows split by a page break (cell skip stacks)
+
+def _chain(d):
+    """{a: {b: None}} -> [a, b]; None -> None; a dict with several keys -> 'complex'."""
+    if d is None:
+        return None
+    out = []
+    while d:
+        if len(d) != 1:
+            return 'complex'
+        (k, d), = d.items()
+        out.append(k)
+    return out
+
+
+def _chain_wire(c):
+    return 'none' if c is None else list(c)
+
+
+def cell_skip_cases(records):
+    """Protocol lines for the per-cell resume bookkeeping of the recorded `table_layout` calls of one
+    document: `cellskip` for every `block_container_layout` call made for a cell (which skip stack the
+    cell was given: the one stored under its index in the row, `{len(children): None}` for a finished
+    cell of the resumed row, None elsewhere), `rowresume` for every call that ends inside a row (the
+    dict stored under the row's index is built from the cells' resume points, keyed by cell index).
+    -> [(line, implementation output, tags)]"""
+    from vlib import sx
+    cases = []
+    for r in records:
+        table = r['table']
+        where = {}
+        for gi, g in enumerate(table.children):
+            for ri, row in enumerate(g.children):
+                for ci, cell in enumerate(row.children):
+                    where[id(cell)] = (gi, ri, ci, len(row.children), cell)
+        skip = r['skip']
+        resumed, row_skip = None, None
+        if skip and len(skip) == 1:
+            (g, inner), = skip.items()
+            if inner and len(inner) == 1:
+                (ri, row_skip), = inner.items()
+                resumed = (g, ri)
+        if row_skip is None:
+            row_wire = 'none'
+        else:
+            chains = {k: _chain(v) for k, v in row_skip.items()}
+            if any(c == 'complex' or c is None for c in chains.values()):
+                continue
+            row_wire = [[k, c] for k, c in chains.items()]
+        last = {}            # (group, row) -> {cell index: call}, the last attempt
+        for call in r['cell_calls']:
+            pos = where.get(id(call['cell']))
+            if pos is None or pos[4] is not call['cell']:
+                continue      # the empty copy laid out when nothing of the cell fits
+            gi, ri, ci, n_cells, _ = pos
+            got = _chain(call['skip'])
+            if got == 'complex':
+                continue
+            in_resumed = resumed == (gi, ri)
+            grid_x = getattr(call['cell'], 'grid_x', ci)
+            tags = ['resumed-row' if in_resumed else 'fresh-row']
+            if in_resumed:
+                tags.append('index!=grid_x' if grid_x != ci else 'index=grid_x')
+                tags.append('pending-cell' if row_skip and ci in row_skip else 'finished-cell')
+            cases.append((sx.line('cellskip', row_wire if in_resumed else 'none', ci, call['n']),
+                          'none' if got is None else '(' + ' '.join(map(str, got)) + ')', tags))
+            last.setdefault((gi, ri), {})[ci] = (call, n_cells)
+        resume_at = r['result'][1]
+        if resume_at and len(resume_at) == 1:
+            (g, inner), = resume_at.items()
+            if inner and len(inner) == 1:
+                (ri, row_resume), = inner.items()
+                calls = last.get((g, ri))
+                if row_resume and calls and len(calls) == next(iter(calls.values()))[1]:
+                    results, ok = [], True
+                    for ci in range(len(calls)):
+                        call = calls[ci][0]
+                        c = _chain(call['resume']) if call['placed'] else [0]
+                        ok = ok and c != 'complex'
+                        results.append(_chain_wire(c))
+                    out = {k: _chain(v) for k, v in row_resume.items()}
+                    if ok and 'complex' not in out.values():
+                        cases.append((sx.line('rowresume', results),
+                                      '(' + ' '.join(f'({k} ({" ".join(map(str, c))}))' for k, c in out.items()) + ')',
+                                      ['row-resume', f'pending{len(out)}']))
+    return cases
+
+
+def body_words(document):
+    """Words shown in the body cells (not thead / tfoot) of every table fragment, in page order."""
+    boxes = _mods()[1]
+    out = []
+    for _, _, t in table_fragments(document):
+        for g in t.children:
+            if g.is_header or g.is_footer:
+                continue
+            for row in g.children:
+                for cell in row.children:
+                    for b in cell.descendants():
+                        if isinstance(b, boxes.TextBox):
+                            out.extend(b.text.split())
+    return out
+
+
+def g_split_doc(rng):
+    """Tables whose rows are taller than what is left of the page: cells with many words in narrow
+    columns, colspans and rowspans *before* the cell that is cut (index in the row != grid column),
+    optional thead, both border models and layouts.  Returns (html, info); info['body_words'] is the
+    sorted list of the words of the body cells."""
+    fs = rng.choice([8, 10])
+    n_cols = rng.choice([2, 3, 3, 4])
+    page_w = rng.choice([200, 300])
+    page_h = rng.choice([40, 50, 60, 80, 100, 120])
+    layout = rng.choice(['auto', 'auto', 'fixed'])
+    collapse = rng.random() < 0.3
+    spacing = _q(rng, 0, 4) if rng.random() < 0.6 else F(0)
+    pad = _q(rng, 0, 2, (1, 2))
+    border = _q(rng, 0, 2, (1, 2)) if rng.random() < 0.5 else F(0)
+    n_rows = rng.choice([2, 3, 3, 4, 5])
+    words_out = []
+    occupied = [set() for _ in range(n_rows)]
+    rows_html = []
+    labels = []
+    for y in range(n_rows):
+        cells = []
+        x = 0
+        first = True
+        while x < n_cols:
+            if x in occupied[y]:
+                x += 1
+                continue
+            colspan = 1
+            if rng.random() < 0.3 and x + 1 < n_cols:
+                colspan = rng.randrange(2, n_cols - x + 1)
+                for k in range(colspan):
+                    if x + k in occupied[y]:
+                        colspan = k
+                        break
+            rowspan = 1
+            if rng.random() < 0.15 and y + 1 < n_rows:
+                rowspan = 2
+            for yy in range(y + 1, y + rowspan):
+                occupied[yy].update(range(x, x + colspan))
+            n_words = rng.choice([1, 1, 2, 4, 6, 9, 14, 20])
+            ws = [rng.choice(WORDS) for _ in range(n_words)]
+            if first:
+                ws[0] = f'r{y}'
+                labels.append(f'r{y}')
+                first = False
+            words_out.extend(ws)
+            attrs = (f' colspan={colspan}' if colspan > 1 else '') + (f' rowspan={rowspan}' if rowspan > 1 else '')
+            cells.append(f'<td{attrs}>{" ".join(ws)}</td>')
+            x += colspan
+        rows_html.append('<tr>' + ''.join(cells) + '</tr>')
+    n_head = 1 if rng.random() < 0.3 else 0
+    head = ''
+    if n_head:
+        head = '<thead><tr>' + ''.join(f'<td>h{x}</td>' for x in range(n_cols)) + '</tr></thead>'
+    before = f'<p style="margin:0">{rng.choice(WORDS)}</p>' * rng.choice([0, 0, 1, 2])
+    width = rng.choice(['100%', '60%', css_len(_q(rng, 80, page_w))]) if layout == 'fixed' or rng.random() < 0.5 \
+        else 'auto'
+    tstyle = (f'table-layout:{layout};width:{width};border-collapse:{"collapse" if collapse else "separate"};'
+              f'border-spacing:{css_len(spacing)}')
+    css = (f'@page{{size:{page_w}px {page_h}px;margin:0}}'
+           f'body{{margin:0;font:{fs}px weasyprint;line-height:{fs}px}}'
+           f'td{{padding:{css_len(pad)};border:{css_len(border)} solid gray;vertical-align:top}}')
+    html = f'<style>{css}</style>{before}<table style="{tstyle}">{head}<tbody>{"".join(rows_html)}</tbody></table>'
+    info = {'flavour': 'split', 'n_cols': n_cols, 'n_body': n_rows, 'body_groups': [n_rows], 'labels': labels,
+            'n_head': n_head, 'n_foot': 0, 'layout': layout, 'collapse': collapse, 'rtl': False, 'caption': None,
+            'page_h': page_h, 'body_words': sorted(words_out)}
+    return html, info
+
+
+# ---------------------------------------------------------------- painted collapsed borders (draw_collapsed_borders)
+
+class DrawColors(ColorIds):
+    """Colour ids for the painting model: every colour with alpha 0 is 0 (not painted)."""
+
+    def __call__(self, color):
+        if getattr(color, 'alpha', 1) == 0:
+            return 0
+        return super().__call__(color)
+
+
+class _StubStream:
+    def push_state(self):
+        pass
+
+    def pop_state(self):
+        pass
+
+
+def painted_segments(table):
+    """Calls the real `draw_collapsed_borders` on a laid-out table fragment with a stub stream and
+    records the lines it paints (`draw_line` and `styled_color` of the draw module are replaced for the
+    call).  -> ([(style, width, color, side, x1, y1, x2, y2)], error class name | None)"""
+    import weasyprint.draw as draw
+    calls = []
+    orig_line, orig_color = draw.draw_line, draw.styled_color
+
+    def line(stream, x1, y1, x2, y2, thickness, style, color, offset=0):
+        color, side = color
+        calls.append((style, thickness, color, side, x1, y1, x2, y2))
+
+    draw.draw_line = line
+    draw.styled_color = lambda style, color, side: (color, side)
+    try:
+        draw.draw_collapsed_borders(_StubStream(), table)
+    except Exception as exc:  # noqa: BLE001
+        return calls, type(exc).__name__
+    finally:
+        draw.draw_line, draw.styled_color = orig_line, orig_color
+    return calls, None
+
+
+def fragment_rows_header_footer(table):
+    header_rows = len(table.children[0].children) if table.children and table.children[0].is_header else 0
+    footer_rows = len(table.children[-1].children) if table.children and table.children[-1].is_footer else 0
+    return header_rows, footer_rows
+
+
+def draw_borders_case(table):
+    """(protocol args, implementation output, tags) of `drawborders` for one collapsed fragment."""
+    from vlib import sx
+    colors = DrawColors()
+    rows = [r for g in table.children for r in g.children]
+    vertical, horizontal = table.collapsed_border_grid
+    header_rows, footer_rows = fragment_rows_header_footer(table)
+
+    def grid(g):
+        return [[sx.loads_line(_edge(e, colors))[0] for e in row] for row in g]
+    args = [rats(r.height for r in rows), rats(r.position_y for r in rows), rats(table.column_widths),
+            rats(table.column_positions), header_rows, footer_rows, int(table.skipped_rows or 0),
+            bool(table.skip_cell_border_top), bool(table.skip_cell_border_bottom), grid(vertical), grid(horizontal)]
+    calls, err = painted_segments(table)
+    if err:
+        out = f'err:{err}'
+    else:
+        out = 'ok (' + ' '.join(
+            f'({style} {sx.atom(num(w))} {colors(color)} {side} {sx.atom(num(x1))} {sx.atom(num(y1))} '
+            f'{sx.atom(num(x2))} {sx.atom(num(y2))})' for style, w, color, side, x1, y1, x2, y2 in calls) + ')'
+    tags = ['skipped-rows' if table.skipped_rows else 'from-first-row',
+            'header' if header_rows else 'no-header', 'footer' if footer_rows else 'no-footer']
+    if table.skip_cell_border_top or table.skip_cell_border_bottom:
+        tags.append('split-cells')
+    return args, out, tags
+
+
+def painted_violation(table, tol=1e-6, known=True, header_declared=False):
+    """Painting agrees with layout: along every edge of a repeated header / footer cell, and along the
+    edges of body cells that do not touch the header, the footer or the fragment's ends, the widest line
+    painted is twice the used border width the cell was laid out with (border_halves, on what is
+    actually drawn).  Fragments with rows / columns thinner than the borders are not judged.
+    `known=True`: the line hit by the known finding collapsed-footer-line-off-by-one is not judged, nor a
+    first fragment whose declared header was dropped (known finding
+    collapsed-dropped-header-shifts-borders: `header_declared` and no header row group shown)."""
+    calls, err = painted_segments(table)
+    if err:
+        return f'draw_collapsed_borders raised {err}'
+    rows = [(g, r) for g in table.children for r in g.children]
+    if not rows or not table.column_widths:
+        return None
+    if known and header_declared and not table.children[0].is_header and not table.skipped_rows:
+        return None
+    row_pos = [r.position_y for _, r in rows] + [rows[-1][1].position_y + rows[-1][1].height]
+    col_pos = list(table.column_positions) + [table.column_positions[-1] + table.column_widths[-1]]
+    widest = max([w for _, w, *_ in calls] or [0])
+    if any(b - a <= widest + tol for a, b in zip(row_pos, row_pos[1:])) or \
+            any(b - a <= widest + tol for a, b in zip(col_pos, col_pos[1:])):
+        return None
+
+    def index(pos, lo, hi):
+        """The grid interval [pos[i], pos[i+1]] that the painted interval [lo, hi] covers."""
+        mid = (lo + hi) / 2
+        for i in range(len(pos) - 1):
+            if pos[i] - tol <= mid <= pos[i + 1] + tol:
+                return i
+        return None
+
+    def line(pos, v):
+        for i, p in enumerate(pos):
+            if abs(p - v) <= tol:
+                return i
+        return None
+
+    hor, ver = {}, {}
+    for style, w, color, side, x1, y1, x2, y2 in calls:
+        if side == 'top':
+            y, x = line(row_pos, y1), index(col_pos, x1, x2)
+            if y is not None and x is not None:
+                hor[(y, x)] = max(hor.get((y, x), 0), w)
+        else:
+            x, y = line(col_pos, x1), index(row_pos, y1, y2)
+            if y is not None and x is not None:
+                ver[(y, x)] = max(ver.get((y, x), 0), w)
+    ltr = table.style['direction'] == 'ltr'
+    n = len(table.column_widths)
+    vertical_grid = table.collapsed_border_grid[0]
+    if vertical_grid and len(vertical_grid[0]) != n + 1 and not ltr and known:
+        # fixed layout clipped the grid (cells beyond it are not rendered, CSS 2.1 17.5.2.1): known
+        # finding collapsed-rtl-clipped-grid, the kept columns of an rtl table are painted from the
+        # wrong end of the grid
+        return None
+    body = [i for i, (g, _) in enumerate(rows) if not (g.is_header or g.is_footer)]
+    # known finding collapsed-footer-line-off-by-one: on a fragment that repeats the footer but is not
+    # the last one, row_number() takes the line between the last two body rows for a footer line
+    _, footer_rows = fragment_rows_header_footer(table)
+    known_line = None
+    if footer_rows and len(vertical_grid) != len(rows):
+        known_line = len(rows) - footer_rows - 1
+    if known and known_line is not None:
+        for x in range(n):
+            hor.pop((known_line, x), None)
+    y = 0
+    for g in table.children:
+        for ri, row in enumerate(g.children):
+            for cell in row.children:
+                if ri + cell.rowspan > len(g.children):
+                    continue                   # a row-spanning cell cut by the fragment
+                x0 = cell.grid_x if ltr else n - cell.grid_x - cell.colspan
+                xs, ys = range(x0, x0 + cell.colspan), range(y, y + cell.rowspan)
+                fixed_part = g.is_header or g.is_footer
+                edges = [('left', [ver.get((yy, x0)) for yy in ys]),
+                         ('right', [ver.get((yy, x0 + cell.colspan)) for yy in ys])]
+                if fixed_part or (body and y != body[0]):
+                    edges.append(('top', [hor.get((y, xx)) for xx in xs]))
+                if fixed_part or (body and y + cell.rowspan - 1 != body[-1]):
+                    edges.append(('bottom', [hor.get((y + cell.rowspan, xx)) for xx in xs]))
+                if not fixed_part and (y == body[0] or y + cell.rowspan - 1 == body[-1]) and (
+                        table.skip_cell_border_top or table.skip_cell_border_bottom):
+                    continue                   # cells cut by the page break
+                for side, painted in edges:
+                    painted = [w for w in painted if w is not None]
+                    used = getattr(cell, f'border_{side}_width')
+                    if painted and abs(max(painted) - 2 * used) > tol:
+                        part = 'header' if g.is_header else 'footer' if g.is_footer else 'body'
+                        return (f'collapsed borders: the {side} edge of the {part} cell {cell_texts(cell)!r} '
+                                f'(grid column {cell.grid_x}, fragment row {y}) is painted {max(painted)} wide, the '
+                                f'cell was laid out with a used border-{side}-width of {used} (half of {2 * used})')
+            y += 1
+    # the painted lines stay within half the widest border around the grid of the fragment
+    half = widest / 2 + tol
+    for style, w, color, side, x1, y1, x2, y2 in calls:
+        if min(x1, x2) < col_pos[0] - half or max(x1, x2) > col_pos[-1] + half or \
+                min(y1, y2) < row_pos[0] - half or max(y1, y2) > row_pos[-1] + half:
+            return (f'collapsed borders: a {w} wide {style} line is painted from ({x1}, {y1}) to ({x2}, {y2}), '
+                    f'more than half the widest border ({widest}) outside the grid of the fragment '
+                    f'[{col_pos[0]}, {col_pos[-1]}] x [{row_pos[0]}, {row_pos[-1]}]')
+    # the first row lies half the widest border of the top line below the table's border-box top
+    top = [hor.get((0, x)) for x in range(n)]
+    header_dropped = header_declared and not table.children[0].is_header
+    # (a declared header that was dropped leaves the header's top border reserved: same root as the
+    # known finding collapsed-dropped-header-shifts-borders, `has_header` means declared, not rendered)
+    if not table.skip_cell_border_top and all(w is not None for w in top) and not (known and header_dropped):
+        gap = row_pos[0] - table.border_box_y() - table.padding_top
+        if abs(gap - max(top) / 2) > tol:
+            return (f'collapsed borders: the top line of the fragment is painted {max(top)} wide, the layout '
+                    f'reserved {gap} (not half of it) between the top of the table box and its first row')
+    # the outer lines of a repeated header / footer are never skipped
+    horizontal_grid = table.collapsed_border_grid[1]
+    header_rows, _ = fragment_rows_header_footer(table)
+
+    def visible(entry):
+        return entry[1][1] > 0 and getattr(entry[1][2], 'alpha', 1) != 0
+
+    for present, grid_line, y_line, name in ((header_rows, 0, 0, 'top line of the repeated header'),
+                                             (footer_rows, -1, len(rows), 'bottom line of the repeated footer')):
+        if present and horizontal_grid:
+            for x in range(n):
+                if visible(horizontal_grid[grid_line][x]) and hor.get((y_line, x)) is None:
+                    return (f'collapsed borders: the {name} (column {x}) has the border '
+                            f'{horizontal_grid[grid_line][x][1][:2]} in the grid but is not painted')
+    return None
+
+
+# ---------------------------------------------------------------- intrinsic widths of one cell
+
+def child_pos(box):
+    """Positioning scheme of a cell's child as the model names it."""
+    if box.is_absolutely_positioned():
+        return 'absolute'
+    if box.is_floated():
+        return 'floated'
+    if box.is_running() or box.is_footnote():
+        return 'running'
+    return 'normal'
+
+
+def _side_dim(value):
+    return 'auto' if value == 'auto' else dim_wire(style_dim(value))
+
+
+def cell_width_args(cell, child_widths, outer):
+    """Protocol arguments of `cellwidths` read from a (real or mock) cell box; `child_widths` =
+    [(min, max)] of its children as the real helpers give them."""
+    style = cell.style
+    mn, mx = style['min_width'], style['max_width']
+    collapse = style['border_collapse'] == 'collapse'
+    bl = cell.border_left_width if collapse and hasattr(cell, 'border_left_width') else style['border_left_width']
+    br = cell.border_right_width if collapse and hasattr(cell, 'border_right_width') else style['border_right_width']
+    return [outer, [[num(a), num(b), child_pos(c)] for c, (a, b) in zip(cell.children, child_widths)],
+            dim_wire(style_dim(style['width'])),
+            num(mn.value) if mn != 'auto' and mn.unit != '%' else F(0),
+            num(mx.value) if mx != 'auto' and mx.unit != '%' and math.isfinite(mx.value) else 'inf',
+            _side_dim(style['margin_left']), _side_dim(style['margin_right']),
+            _side_dim(style['padding_left']), _side_dim(style['padding_right']), num(bl), num(br)]
+
+
+def g_cell_spec(rng, adv=False):
+    """A mock cell: 0..5 children (min/max-content widths, positioning scheme), width auto/px/%,
+    min/max-width, margins, paddings (px / %), borders, border model."""
+    def side(p_pct=0.15, p_auto=0.0):
+        r = rng.random()
+        if r < p_auto:
+            return ('auto',)
+        if r < p_auto + p_pct:
+            return ('pct', rng.choice([F(5), F(10), F(25), F(50)] + ([F(100), F(60)] if adv else [])))
+        return ('px', g_small(rng, 0, 6, adv) if rng.random() < 0.6 else F(0))
+    children = []
+    for _ in range(rng.choice([0, 1, 1, 2, 2, 3, 4, 5])):
+        mn = g_small(rng, 0, 60, adv)
+        mx = mn + (g_small(rng, 0, 80) if rng.random() < 0.7 else 0)
+        if adv and rng.random() < 0.2:
+            mx = g_small(rng, 0, 40, True)
+        pos = rng.choice(['static', 'static', 'static', 'float-left', 'float-right', 'absolute', 'fixed',
+                          'running', 'footnote'])
+        children.append((mn, mx, pos))
+    r = rng.random()
+    width = ('auto',) if r < 0.5 else ('px', g_small(rng, 0, 90, adv)) if r < 0.8 else ('pct', F(rng.choice([10, 50])))
+    return {'children': children, 'width': width,
+            'min_w': g_small(rng, 0, 70) if rng.random() < 0.2 else None,
+            'max_w': g_small(rng, 0, 70) if rng.random() < 0.2 else None,
+            'ml': side(0.1, 0.1), 'mr': side(0.1, 0.1), 'pl': side(), 'pr': side(),
+            'bl': g_small(rng, 0, 4), 'br': g_small(rng, 0, 4),
+            'used_bl': g_small(rng, 0, 4), 'used_br': g_small(rng, 0, 4),
+            'collapse': rng.random() < 0.4, 'outer': rng.random() < 0.6}
+
+
+def call_cell_widths(spec):
+    """Real `table_cell_min_max_content_width` on a mock cell whose children's intrinsic widths are
+    stubbed (text measurement is not modelled).  -> (line args, output)."""
+    from vlib import sx
+    Dimension, boxes, _, preferred = _mods()
+    kids = []
+    for mn, mx, pos in spec['children']:
+        style = {'position': 'static', 'float': 'none'}
+        if pos.startswith('float-'):
+            style['float'] = pos[6:]
+        elif pos == 'footnote':
+            style['float'] = 'footnote'
+        elif pos == 'running':
+            style['position'] = ('running()', 'header')
+        elif pos != 'static':
+            style['position'] = pos
+        kid = boxes.BlockBox('div', style, None, [])
+        kid._min, kid._max = mn, mx
+        kids.append(kid)
+
+    def side(d):
+        return 'auto' if d[0] == 'auto' else dim_style(d)
+    style = {'width': dim_style(spec['width']),
+             'min_width': Dimension(spec['min_w'], 'px') if spec['min_w'] is not None else 'auto',
+             'max_width': Dimension(spec['max_w'], 'px') if spec['max_w'] is not None else 'auto',
+             'margin_left': side(spec['ml']), 'margin_right': side(spec['mr']),
+             'padding_left': side(spec['pl']), 'padding_right': side(spec['pr']),
+             'border_left_width': spec['bl'], 'border_right_width': spec['br'],
+             'border_collapse': 'collapse' if spec['collapse'] else 'separate'}
+    cell = boxes.TableCellBox('td', style, None, kids)
+    if spec['collapse']:
+        cell.border_left_width, cell.border_right_width = spec['used_bl'], spec['used_br']
+    args = cell_width_args(cell, [(k._min, k._max) for k in kids], spec['outer'])
+    stubs = {'min_content_width': lambda ctx, box, outer=True: box._min,
+             'max_content_width': lambda ctx, box, outer=True: box._max}
+    saved = {name: getattr(preferred, name) for name in stubs}
+    try:
+        for name, fn in stubs.items():
+            setattr(preferred, name, fn)
+        try:
+            mn, mx = preferred.table_cell_min_max_content_width(None, cell, spec['outer'])
+        except Exception as exc:  # noqa: BLE001
+            return args, f'err:{type(exc).__name__}'
+    finally:
+        for name, fn in saved.items():
+            setattr(preferred, name, fn)
+    return args, f'{sx.atom(num(mn))} {sx.atom(num(mx))}'
+
+
+def cell_widths_violation(spec, out):
+    """cell_min_covers / cell_max_ge_min stated directly: the content-box min-content width of a cell
+    covers every child that is not absolutely positioned unless max-width forbids it; max >= min."""
+    if out.startswith('err:'):
+        return f'table_cell_min_max_content_width raised {out}'
+    mn, mx = (Fraction(x) for x in out.split())
+    if mx < mn:
+        return f'cell max-content width {mx} below its min-content width {mn}'
+    if spec['outer']:
+        return None
+    need = max([c[0] for c in spec['children'] if c[2] not in ('absolute', 'fixed')] or [F(0)])
+    if spec['max_w'] is not None and spec['max_w'] < need:
+        return None
+    if mn < need:
+        return (f'cell min-content width {mn} is less than the min-content width {need} of one of its children '
+                f'that are not absolutely positioned: {spec["children"]}')
+    return None
+
+
+def doc_cell_width_case(context, cell):
+    """`cellwidths` case for one cell of a rendered document: the children's widths from the real
+    helpers, the cell's from the real `table_cell_min_max_content_width` (outer)."""
+    from vlib import sx
+    preferred = _mods()[3]
+    widths = [(0, 0) if c.is_absolutely_positioned() else
+              (preferred.min_content_width(context, c), preferred.max_content_width(context, c))
+              for c in cell.children]
+    args = cell_width_args(cell, widths, True)
+    mn, mx = preferred.table_cell_min_max_content_width(context, cell, True)
+    kinds = sorted({child_pos(c) for c in cell.children})
+    return sx.line('cellwidths', *args), f'{sx.atom(num(mn))} {sx.atom(num(mx))}', kinds
+
+
+def unbreakable_needs(cell):
+    """Outer widths of the unbreakable boxes inside a cell that the cell must be wide enough for:
+    floats and in-flow blocks with a px width (absolutely positioned boxes need nothing)."""
+    boxes = _mods()[1]
+    needs = []
+    for b in cell.descendants():
+        if b is cell or not isinstance(b, boxes.BlockBox) or b.is_absolutely_positioned():
+            continue
+        w = b.style['width']
+        if w != 'auto' and w.unit == 'px' and b.element_tag == 'div':
+            needs.append(num(b.margin_width()))
+    return needs
 
 
 # ---------------------------------------------------------------- table_and_columns_preferred_widths
